@@ -10,3 +10,8 @@ pub fn compute_file_checksum(file: File) -> (r: Result<String, IoError>)
 pub fn compute_buffer_checksum(buffer: &[u8]) -> (r: String)
     ensures r@ == sha256_hex(buffer@)
 { unimplemented!() }
+/// the writer's mode agrees with the run: check mode <=> nothing may be written
+pub open spec fn writer_wf(w: &AppWriter) -> bool { (w.mode is Update) == writes_allowed() }
+pub open spec fn outdated_ids(w: &AppWriter) -> Set<int> {
+    match w.mode { WriterMode::CheckOnly { outdated } => set_ids(&outdated), WriterMode::Update => Set::<int>::empty() }
+}
